@@ -3410,11 +3410,7 @@ impl Server {
             }).unwrap_or(false);
             
             if should_remove {
-                // Check if connection has active subscriptions before cleaning up
-                if self.pubsub.is_subscribed(id) {
-                    // Skip cleanup for connections with active subscriptions
-                    continue;
-                }
+                // A closing connection is removed together with its subscriptions
                 to_remove.push(id);
             }
         }
